@@ -416,7 +416,29 @@ def check_validator(ctx):
 
     def find(pred):
         return [c for p in t.paths for c in p.conds
-                if c.kind == 'test' and pred(U(t.expand(c.expr)))]
+                if c.kind == 'test' and pred(canon(c.expr))]
+
+    def canon(expr):
+        """text of the expanded condition with the constant operand of an
+        equality on the right"""
+        x = t.expand(expr)
+        if isinstance(x, ast.Compare) and len(x.ops) == 1 and isinstance(
+                x.ops[0], (ast.Eq, ast.Is)) and isinstance(
+                    x.left, ast.Constant) and not isinstance(
+                        x.comparators[0], ast.Constant):
+            x = ast.Compare(left=x.comparators[0], ops=x.ops,
+                            comparators=[x.left])
+        return U(x)
+
+    def raw_canon(expr):
+        x = expr
+        if isinstance(x, ast.Compare) and len(x.ops) == 1 and isinstance(
+                x.ops[0], (ast.Eq, ast.Is)) and isinstance(
+                    x.left, ast.Constant) and not isinstance(
+                        x.comparators[0], ast.Constant):
+            x = ast.Compare(left=x.comparators[0], ops=x.ops,
+                            comparators=[x.left])
+        return U(x)
     probs = {
         'missing policy file': lambda s: '_informed_no_policy_file' in s,
         'invalid rules': lambda s: 'check_rules()' in s,
@@ -438,7 +460,7 @@ def check_validator(ctx):
         for c in p.conds:
             if c.kind != 'test':
                 continue
-            s = U(t.expand(c.expr))
+            s = canon(c.expr)
             if probs['missing policy file'](s) and c.pol:
                 fired.append('missing policy file')
             if probs['invalid rules'](s) and not c.pol:
@@ -447,15 +469,15 @@ def check_validator(ctx):
                 fired.append('unknown rule name')
         # unparseable needs both conjuncts
         a = [c for c in p.conds if c.kind == 'test' and probs[
-            'unparseable rule'](U(t.expand(c.expr)))]
+            'unparseable rule'](canon(c.expr))]
         b = [c for c in p.conds if c.kind == 'test' and "!= '!'" in (
             '!= ' if False else U(t.expand(ast.UnaryOp(
                 op=ast.Not(), operand=c.expr)))) or (
                     c.kind == 'test' and 'unparsed' in U(c.expr)
                     and "'!'" in U(c.expr))]
         literal_bang = [c for c in p.conds if c.kind == 'test' and
-                        "== '!'" in U(c.expr) and '.rules['
-                        not in U(t.expand(c.expr))]
+                        "== '!'" in raw_canon(c.expr) and '.rules['
+                        not in canon(c.expr)]
         if a and a[0].pol and literal_bang and not literal_bang[0].pol:
             fired.append('unparseable rule')
         if p.outcome.kind != 'return' or p.outcome.expr is None:
@@ -471,9 +493,9 @@ def check_validator(ctx):
                               'unparseable')
     both = any(
         any(c.kind == 'test' and probs['unparseable rule'](
-            U(t.expand(c.expr))) for c in p.conds) and
-        any(c.kind == 'test' and "== '!'" in U(c.expr) and '.rules['
-            not in U(t.expand(c.expr)) for c in p.conds)
+            canon(c.expr)) for c in p.conds) and
+        any(c.kind == 'test' and "== '!'" in raw_canon(c.expr)
+            and '.rules[' not in canon(c.expr) for c in p.conds)
         for p in t.paths)
     ctx.ob('C13.VALIDATOR', both, W, f.qual, 'parse-failure guard',
            'a rule counts as unparseable only if it parsed to `!` and its '
